@@ -5,7 +5,6 @@ import (
 	"sort"
 	"sync/atomic"
 	"time"
-
 )
 
 // ProcStep is one step of a processing-time window scenario.
